@@ -36,7 +36,8 @@ POOL = [
 UNSUPPORTED_CXX = {"template_spec", "virtual_inherit", "template_template", "template_nontype", "recursive_template", "typename_dependent"}
 # single constructs whose bindings do not compile on the unchanged tree (recorded findings, one signature each)
 KNOWN_BAD_SNIPPETS = {"complex", "aligned_packed", "underscore", "unicode_ident", "multiple_inherit", "div_zero_macro", "redefine_size_t",
-                      "tag_fn_var_collision", "fp16", "template_alias", "void_ptr_arith_types"}
+                      "tag_fn_var_collision", "fp16", "template_alias", "void_ptr_arith_types",
+                      "aligned_typedef_scalar", "aligned_lower_typedef", "packed_member", "vector_small"}
 # option groups that hit recorded defects in combination with some families (each has its own reproducer / finding)
 NOT_FOR_HOSTILE = {"--explicit-padding", "--impl-debug"}
 EDITIONS = [(None, "2021"), ("2018", "2018"), ("2021", "2021"), ("2024", "2024")]
